@@ -71,6 +71,8 @@ def gen_geom(rng, nmax=8, n=None):
     n = int(rng.integers(1, nmax + 1)) if n is None else n
     Delta = float(10.0 ** rng.uniform(-3, 2))
     gscale = 10.0 ** rng.uniform(-3, 3)
+    if rng.random() < 0.15:
+        gscale = 10.0 ** rng.uniform(-13, -4)      # tiny but non-negligible gradients (above ZERO_THRESH = 1e-14)
     g = rng.normal(size=n) * gscale
     for i in range(n):
         u = rng.random()
